@@ -9,18 +9,18 @@ symbols padding to the word boundary followed by END-END-END-EPF (or an EDB abor
 marked delayed).  Receiving such a stream with the link-layer receivers yields the same header and
 payload with good CRCs."
 
-FULL STATEMENT (`tx_emits_frame`, not proved in full): for every header, every payload of 0..1024
-bytes presented on `data_sink` under the stream contract, and every `source.ready` pattern, the words
-transferred between `generate` and `done` are `frame hdr payload`.
-PROVED HERE: all ready patterns reduce to the all-ready one (`stall_invariant`, `stall_cycle_invisible`);
-the header part for every header (`header_words`); the abort (`delayed_aborts_with_edb`); zero-length
-payloads and one-word payloads (1..4 bytes) (`tx_emits_frame_partial`); payloads of two or more words
-of any length and trailing-byte count (`payload_words_in_order`, `dpp_frame_all_lengths`: induction
-over the word list with the pipeline invariant); and the symbol-level content of the three closing
-words: the `k` payload bytes, the four CRC-32 bytes immediately, END END END EPF, zero padding
-(`crc32_immediately_after_last_byte`).  Missing: gluing these into the single statement above (one
-history, arbitrary ready pattern, symbolic `frame`).  The round trip `rx_of_tx` is co-simulated (real
-transmitter into real receivers), not proved.
+FULL STATEMENT: `tx_emits_frame` in `Lemmas/C36Frame.lean` (this file holds the one-step facts and
+the pieces that were proved first): for every header, every payload presented on `data_sink` under the
+stream contract `obeys`, and every `source.ready` pattern, the words transferred between `generate`
+and `done` are `frame hdr payload` (a functional definition, symbol level for the payload part), `done`
+is raised exactly when the frame is complete, and the stream is consumed exactly once.  The round trip
+`rx_of_tx` (header receiver model of C37, data receiver model of C40 over `frame hdr payload`) is in
+`Lemmas/C36RoundTrip.lean`.
+HERE: a stalled cycle changes nothing (`stall_invariant`, `stall_cycle_invisible`); the header part for
+every header (`header_words`); the abort (`delayed_aborts_with_edb`); zero-length and one-word payloads
+(`tx_emits_frame_partial`); payloads of two or more words with the PHY always ready
+(`payload_words_in_order`, `dpp_frame_all_lengths`); the symbol-level content of the three closing
+words (`crc32_immediately_after_last_byte`).
 -/
 namespace LunaVerif.RawPacketTransmitter
 
